@@ -186,9 +186,17 @@ func UCI(seed int64, d time.Duration, w int) int {
 	drv, out := uci.NewDriver(ctx, e, in, opts...)
 	var wg sync.WaitGroup
 	wg.Add(1)
+	// a reader that stops reading for a while now and then: the driver's output buffer fills up, the command
+	// loop blocks on it, and the queue of reports behind it fills up
+	flood := r.Intn(2) == 0 // mostly roots where every iteration is instant, searched without limit
+	lagging := flood || r.Intn(2) == 0
 	go func() {
 		defer wg.Done()
+		cnt := 0
 		for range out {
+			if cnt++; lagging && cnt%300 == 0 {
+				time.Sleep(8 * time.Millisecond)
+			}
 		}
 	}()
 	deadline := time.Now().Add(d)
@@ -196,7 +204,16 @@ func UCI(seed int64, d time.Duration, w int) int {
 	moves := []string{}
 	for time.Now().Before(deadline) {
 		var l string
-		switch r.Intn(9) {
+		c := r.Intn(10)
+		if flood {
+			c = []int{9, 9, 2, 2, 2, 4, 4, 4, 6, 7}[c]
+		}
+		switch c {
+		case 9:
+			// a root where every iteration is instant (stalemate; fifty-move clock run out): with no depth limit
+			// the search reports iterations as fast as it can, and the report queue fills up
+			moves = moves[:0]
+			l = []string{"position fen 7k/5Q2/6K1/8/8/8/8/8 b - - 0 1", "position fen r3k2r/8/8/8/8/8/8/R3K2R w KQkq - 99 100", "position fen 8/8/3nk3/8/8/3NK3/8/8 w - - 100 90", "position fen 8/8/4k3/8/8/3K4/8/8 w - - 99 120"}[r.Intn(4)]
 		case 0, 1:
 			if len(moves) < len(lines) {
 				moves = append(moves, lines[len(moves)])
